@@ -1,10 +1,1 @@
-#![allow(unused_imports)]
-use super::layers::*;
-use super::ops::*;
-use super::pcapio::*;
-#[cfg(kani)] #[kani::proof] #[kani::unwind(5)] #[kani::stub(std::fmt::format, crate::verif::stubs::format_stub)]
-fn probe_read_b() { read_prefix::<2>(0) }
-#[cfg(kani)] #[kani::proof] #[kani::unwind(5)] #[kani::stub(std::fmt::format, crate::verif::stubs::format_stub)]
-fn probe_read_c() { read_prefix::<2>(2) }
-#[cfg(kani)] #[kani::proof] #[kani::unwind(6)] #[kani::stub(std::fmt::format, crate::verif::stubs::format_stub)]
-fn probe_read_d() { read_prefix::<3>(0) }
+// scratch harnesses for feasibility probes (normally empty)
